@@ -68,7 +68,7 @@ func poolNestedScript(n int, bad bool) string {
 	var a []string
 	a = append(a, "'scan'", "'pk'")
 	for i := 0; i < n; i++ {
-		a = append(a, "'WHEREEVAL'", "'return ARGV[1] ~= nil'", "'1'", fmt.Sprintf("'inner%d'", i))
+		a = append(a, "'WHEREEVAL'", "'return ARGV[1] ~= nil'", "'1'", "ARGV[1]..'-inner'")
 	}
 	if bad {
 		a = append(a, "'LIMIT'", "'0'")
